@@ -42,6 +42,8 @@ var Placements = []Placement{
 	{Out: "mock_ext_test.go", Pkg: "src_test", Writable: true},
 	// -out is a symbolic link to an existing file elsewhere
 	{Out: "../mocks/link_gen.go", Pkg: "mocks", Writable: true, Symlink: "../linktarget/real_gen.go"},
+	// ... a link that sits inside the source package itself (what is behind it is loaded with the package)
+	{Out: "mock_link_gen.go", Loaded: true, Writable: true, Symlink: "../linktarget/src_real_gen.go"},
 	// ... and a dangling one whose relative target means different places from the link's directory and from moq's working directory
 	{Out: "../mocks/dangling_gen.go", Pkg: "mocks", Writable: true, Symlink: "gen/new_gen.go", Dangling: true},
 }
@@ -153,7 +155,7 @@ func GenScenario(tp *tape.Tape, seed uint64, pf Profile) *Scenario {
 	if tp.Chance(150, 1000) {
 		sc.Place = Placements[4+tp.Int(2)]
 	} else {
-		w := []int{0, 0, 0, 1, 2, 3, 6, 7, 8, 9, 10, 11, 12, 12, 12, 13}
+		w := []int{0, 0, 0, 1, 2, 3, 6, 7, 8, 9, 10, 11, 12, 12, 13, 13, 14}
 		sc.Place = Placements[w[tp.Int(len(w))]]
 	}
 	sc.IncompleteMod = tp.Chance(70, 1000)
@@ -188,7 +190,7 @@ func GenScenario(tp *tape.Tape, seed uint64, pf Profile) *Scenario {
 		// a scripted regeneration history with random flags: generate in place,
 		// change something, regenerate with -rm (and once more without)
 		sc.IncompleteMod = false
-		sc.Place = Placements[[]int{0, 0, 7, 8, 9, 10}[tp.Int(6)]]
+		sc.Place = Placements[[]int{0, 0, 7, 8, 9, 10, 13}[tp.Int(7)]]
 		first := genRun(tp, Profile{}, sc.Place)
 		first.Rm = false
 		again := first
